@@ -141,10 +141,11 @@ Proof.
       apply (PInv_place c s s1 i p (S i)); auto; [unfold palloc; lia | | unfold palloc; lia |].
       * intro x; rewrite Hids1; simpl; intuition.
       * intros j Hj Hne. destruct (le_lt_dec (pfirst c) j); [apply Hbet; lia | apply Hbelow; assumption].
-    + destruct H1 as [Hids1 _]. apply safe_ret; simpl.
+    + destruct H1 as [Hids1 _]. apply safe_ret; cbn [fst].
       assert (HI1 : PInv c s1) by (eapply PInv_ids_eq; eauto; intro x; rewrite Hids1; tauto).
       destruct HI1 as [A1 [A2 [A3 [A4 [A5 [A6 A7]]]]]].
-      unfold PInv, powned, palloc in *; simpl.
+      unfold PInv, powned, palloc in *; cbn [fst snd pvec pcount pfirst slots].
+      rewrite Nat.min_r by lia.
       split; [assumption | split; [assumption | split; [assumption | split; [assumption | split; [lia | split; [|assumption]]]]]].
       intros j Hj. destruct (le_lt_dec (pfirst c) j); [apply Hbet; lia | apply Hbelow; assumption].
   - (* the table is full: grow it *)
@@ -162,7 +163,7 @@ Proof.
       assert (Hna : (palloc c < na)%nat).
       { unfold na, new_allocation. destruct (Nat.ltb_spec (palloc c) 3); [lia|]. destruct (Nat.ltb_spec (palloc c) 8); lia. }
       set (c1 := mkP (Some nb) (pcount c) (pfirst c) (slots c ++ repeat None (na - palloc c))).
-      assert (Hlen1 : palloc c1 = na) by (unfold palloc, c1; simpl; rewrite app_length, repeat_length; unfold palloc; lia).
+      assert (Hlen1 : palloc c1 = na) by (unfold c1; unfold palloc in *; simpl; rewrite app_length, repeat_length; unfold palloc in *; lia).
       assert (Hsom : somes (slots c1) = somes (slots c)).
       { unfold c1, somes; simpl. rewrite own_app, (own_repeat_d _ slotk None slotk_none), app_nil_r; reflexivity. }
       destruct (NoDup_app_inv' _ _ Hnd) as [Hv1 [Hs Hd]].
@@ -195,13 +196,162 @@ Proof.
         -- intro x; rewrite Hids2; simpl; intuition.
         -- rewrite Hlen1; lia.
         -- intros j Hj Hne. unfold c1; simpl. rewrite app_nth1 by (unfold palloc in *; lia). apply Hbelow; assumption.
-      * destruct H2 as [Hids2 _]. apply safe_ret; simpl.
+      * destruct H2 as [Hids2 _]. apply safe_ret; cbn [fst].
         assert (HI2 : PInv c1 s2) by (eapply PInv_ids_eq; eauto; intro x; rewrite Hids2; tauto).
         destruct HI2 as [A1 [A2 [A3 [A4 [A5 [A6 A7]]]]]].
-        unfold PInv, powned in *; simpl in *.
+        unfold PInv, powned in *; cbn [fst snd pvec pcount pfirst slots] in *.
         split; [assumption | split; [assumption | split; [assumption | split; [assumption | split; [|split; [|assumption]]]]]].
-        -- fold c1 in A5. unfold palloc in *; simpl in *. lia.
-        -- intros j Hj. apply A6. lia.
+        -- pose proof (Nat.le_min_l (pfirst c) (pcount c)). unfold palloc in *; cbn [slots] in *. lia.
+        -- intros j Hj. apply A6. pose proof (Nat.le_min_l (pfirst c) (pcount c)). lia.
     + destruct H1 as [Hids1 _]. apply safe_ret. apply safe_ret; simpl.
       eapply PInv_ids_eq; eauto. intro x; rewrite Hids1; tauto.
 Qed.
+
+Lemma safe_delete_parameter : forall c s index, PInv c s ->
+  safe (delete_parameter c index) s (fun r s' => PInv (fst r) s').
+Proof.
+  intros c s index HI; unfold delete_parameter. pose proof HI as [Hw [Hnd [Hiff [Hc [Hfl [Hbelow Hv]]]]]].
+  destruct (Z.ltb_spec index 0); [apply safe_ret; assumption|].
+  destruct (Z.ltb_spec index 3); [apply safe_ret; assumption|].
+  destruct (Z.leb_spec (Z.of_nat (palloc c)) index); [apply safe_ret; assumption|].
+  set (n := Z.to_nat index). assert (Hn : (n < length (slots c))%nat) by (unfold n, palloc in *; lia).
+  destruct (nth n (slots c) None) as [p|] eqn:Hp; [|apply safe_ret; assumption].
+  destruct (P_vec_ok c s HI ltac:(unfold palloc; lia)) as [b [Hb Hbl]].
+  assert (Hlive : is_live b s = true) by (apply is_live_iff; assumption).
+  apply safe_bind. exists tt, s; split; [unfold touch; rewrite Hb, Hlive; reflexivity|].
+  destruct (NoDup_app_inv' _ _ Hnd) as [Hv1 [Hs Hd]].
+  assert (Hpin : In p (somes (slots c))) by (eapply somes_in_nth; eauto).
+  apply safe_bind. eapply safe_weaken; [apply safe_free; [assumption | apply Hiff, in_or_app; auto]|].
+  intros u s1 [Hw1 [_ Hi1]]. apply safe_ret; cbn [fst].
+  destruct (own_remove_at _ slotk None slotk_none n (slots c) Hn Hs) as [Hrn Hriff].
+  assert (Hup := own_upd _ slotk n (slots c) None Hn).
+  unfold PInv, powned, palloc in *; cbn [pvec pcount pfirst slots].
+  split; [assumption|]. split; [|split; [|split; [|split; [|split]]]].
+  - apply NoDup_app_intro'; auto.
+    + apply (NoDup_own_upd _ slotk); auto; simpl; try constructor; try tauto.
+    + intros x Hx Hin. apply Hup in Hin. simpl in Hin. destruct Hin as [[]|Hin]. apply Hriff in Hin. eapply Hd; eauto; tauto.
+  - intro x; rewrite Hi1, Hiff, !in_app_iff. unfold somes. rewrite (Hup x), (Hriff x), Hp. simpl. split.
+    + intros [[Hx|Hx] Hne]; auto. right; right; split; auto. intros [He|[]]; congruence.
+    + intros [Hx|[[]|[Hx Hno]]].
+      * split; auto. intro; subst x. eapply Hd; eauto.
+      * split; auto; intro; subst x; apply Hno; auto.
+  - rewrite (count_upd_none n (slots c) p); auto; rewrite Hc; reflexivity.
+  - rewrite length_upd. pose proof (Nat.le_min_l (pfirst c) n). lia.
+  - intros j Hj. assert (j <> n) by (pose proof (Nat.le_min_r (pfirst c) n); lia).
+    rewrite nth_upd_other by auto. apply Hbelow. pose proof (Nat.le_min_l (pfirst c) n). lia.
+  - rewrite length_upd; assumption.
+Qed.
+
+Lemma safe_pstep : forall c s op, PInv c s -> safe (pstep Fixed c op) s (fun r s' => PInv (fst r) s').
+Proof.
+  intros c s [|i] HI; simpl.
+  - apply safe_bind. eapply safe_weaken; [apply safe_alloc_parameter; assumption|].
+    intros [c' [j|]] s' HI'; apply safe_ret; assumption.
+  - apply safe_delete_parameter; assumption.
+Qed.
+
+Lemma safe_prun : forall ops c s, PInv c s -> safe (prun Fixed c ops) s (fun r s' => PInv (fst r) s').
+Proof.
+  induction ops as [|op ops IH]; intros c s HI; simpl.
+  - apply safe_ret; assumption.
+  - apply safe_bind. eapply safe_weaken; [apply safe_pstep; assumption|].
+    intros [c' o] s' HI'; simpl in HI'.
+    apply safe_bind. eapply safe_weaken; [apply IH; exact HI'|].
+    intros [c'' os] s'' HI''; simpl in *. apply safe_ret; assumption.
+Qed.
+
+Lemma safe_free_slots : forall l s, wf s -> NoDup (somes l) -> (forall x, In x (somes l) -> In x (ids s)) ->
+  safe (free_slots l) s (fun _ s' => wf s' /\ (forall x, In x (ids s') <-> In x (ids s) /\ ~ In x (somes l))).
+Proof.
+  induction l as [|o l IH]; intros s Hw Hnd Hin; simpl.
+  - apply safe_ret; split; auto. intro x; unfold somes; simpl; tauto.
+  - unfold somes in *; simpl in *. destruct (NoDup_app_inv' _ _ Hnd) as [Hc [Hk Hd]].
+    apply safe_bind. destruct o as [p|]; simpl in *.
+    + eapply safe_weaken; [apply safe_free; [assumption | apply Hin; auto]|].
+      intros u s1 [Hw1 [_ Hi1]].
+      eapply safe_weaken; [apply IH; [assumption | assumption |]|].
+      * intros x Hx; apply Hi1; split; [apply Hin; auto | intro; subst; eapply Hd; eauto; simpl; auto].
+      * intros u2 s2 [Hw2 Hi2]; split; auto. intro x; rewrite Hi2, Hi1; simpl. intuition.
+    + exists tt, s; split; [reflexivity|].
+      eapply safe_weaken; [apply IH; auto|]. intros u2 s2 [Hw2 Hi2]; split; auto.
+Qed.
+
+Lemma safe_teardown : forall c s, PInv c s -> safe (teardown c) s (fun _ s' => live s' = []).
+Proof.
+  intros c s [Hw [Hnd [Hiff _]]]; unfold teardown, powned in *.
+  destruct (NoDup_app_inv' _ _ Hnd) as [Hv1 [Hs Hd]].
+  apply safe_bind. eapply safe_weaken; [apply safe_free_slots; [assumption | assumption |]|].
+  { intros x Hx; apply Hiff, in_or_app; auto. }
+  intros u s1 [Hw1 Hi1]. destruct (pvec c) as [b|] eqn:Hb; simpl in *.
+  - eapply safe_weaken; [apply safe_free; [assumption|]|].
+    + apply Hi1; split; [apply Hiff; simpl; auto | intro Hx; eapply Hd; eauto].
+    + intros u2 s2 [Hw2 [_ Hi2]]. apply ids_nil_live_nil. intros x Hx.
+      apply Hi2 in Hx. destruct Hx as [Hx Hne]. apply Hi1 in Hx. destruct Hx as [Hx Hno]. apply Hiff in Hx.
+      destruct Hx as [Hx|Hx]; [congruence | contradiction].
+  - exists tt, s1; split; [reflexivity|]. apply ids_nil_live_nil. intros x Hx.
+    apply Hi1 in Hx. destruct Hx as [Hx Hno]. apply Hiff in Hx. contradiction.
+Qed.
+
+Lemma PInv_empty : forall k, PInv pempty (start k).
+Proof.
+  intro k; unfold PInv, powned, pempty, palloc; simpl.
+  split; [apply wf_start|]. split; [constructor|]. split; [intro x; tauto|].
+  split; [reflexivity|]. split; [lia|]. split; [intros j Hj; lia | lia].
+Qed.
+
+Lemma phistory_safe : forall ops k, safe (phistory Fixed ops) (start k) (fun _ s' => live s' = []).
+Proof.
+  intros ops k; unfold phistory.
+  apply safe_bind. eapply safe_weaken; [apply safe_prun; apply PInv_empty|].
+  intros [c os] s1 HI1; simpl in HI1.
+  apply safe_bind. eapply safe_weaken; [apply safe_teardown; exact HI1|].
+  intros u s2 H2. apply safe_ret; assumption.
+Qed.
+
+Theorem pslots_no_fault_lemma : forall ops k f, phistory Fixed ops (start k) <> Fault f.
+Proof.
+  intros ops k f H. destruct (phistory_safe ops k) as [a [s' [He _]]]. rewrite He in H; discriminate.
+Qed.
+
+Theorem pslots_no_leak_lemma : forall ops k os s',
+  phistory Fixed ops (start k) = Ok (os, s') -> live s' = [].
+Proof.
+  intros ops k os s' H. destruct (phistory_safe ops k) as [a [s2 [He Hl]]]. rewrite He in H; inversion H; subst; assumption.
+Qed.
+
+Theorem pslots_fault_clean_lemma : forall op c s, PInv c s ->
+  exists c' o s', pstep Fixed c op s = Ok ((c', o), s') /\ PInv c' s'.
+Proof.
+  intros op c s HI. destruct (safe_pstep c s op HI) as [[c' o] [s' [He HI']]]. exists c', o, s'; auto.
+Qed.
+
+(* a failed allocation leaves the set of valid handles unchanged: concrete instance (table of 8 with
+   slot 7 free; the malloc of the parameter fails).  The general statement is not proved. *)
+Example pslots_fault_atomic_example :
+  match prun Fixed pempty (repeat PAlloc 8 ++ [PDelete 7]) (start None) with
+  | Ok ((c, _), s) =>
+      match alloc_parameter Fixed c (mkA (Some O) (live s) (fresh s)) with
+      | Ok ((c', None), _) => pobserve c' = pobserve c /\ pcount c' = pcount c /\ pfirst c' = 7%nat
+      | _ => False
+      end
+  | _ => False
+  end.
+Proof. vm_compute. repeat split. Qed.
+
+Example PInv_satisfiable : exists c s, PInv c s /\ palloc c = 8%nat /\ pcount c = 4%nat.
+Proof.
+  destruct (safe_prun [PAlloc; PAlloc; PAlloc; PAlloc; PAlloc; PDelete 3] _ _ (PInv_empty None)) as [[c' os] [s' [He HI']]].
+  vm_compute in He. inversion He; subst. eexists; eexists; split; [exact HI'|]. vm_compute; auto.
+Qed.
+
+(* D11 as first read: first_free is not restored; the next allocation reads past the table *)
+Theorem pslots_orig_refuted_lemma :
+  exists ops k, phistory Orig ops (start (Some k)) = Fault OOB.
+Proof. exists (repeat PAlloc 8 ++ [PDelete 7; PAlloc; PAlloc]), 10%nat; vm_compute; reflexivity. Qed.
+
+Lemma pslots_fault_history_lemma : forall ops k os s',
+  phistory Fixed ops (start (Some k)) = Ok (os, s') -> live s' = [].
+Proof. intros ops k; exact (pslots_no_leak_lemma ops (Some k)). Qed.
+
+Lemma pslots_fault_history_no_fault_lemma : forall ops k f, phistory Fixed ops (start (Some k)) <> Fault f.
+Proof. intros ops k; exact (pslots_no_fault_lemma ops (Some k)). Qed.
